@@ -147,7 +147,7 @@ class Fn:
     def __init__(self, name, props=(), ret=None, requires=(), ensures=(), decreases=None,
                  loops=None, before=(), after=(), rewrites=(), nth=0, emit_name=None,
                  external_body=False, sig_rewrites=(), opens=None, attrs=(), known=(), no_std_rewrites=False,
-                 recommends=(), prologue=None, decl_only=False, from_block=None, reach_guard=False, region=None):
+                 recommends=(), prologue=None, decl_only=False, from_block=None, reach_guard=False, region=None, optional=False):
         self.name = name
         self.props = list(props)
         self.ret = ret
@@ -172,6 +172,9 @@ class Fn:
         # (not including) end_anchor are emitted as the body of a new function with the given signature; `tail` is appended
         self.region = region
         self.from_block = from_block   # (file, header): R-flatten, take the fn from another trait/impl block
+        # a private helper the contracted functions may or may not be written with: when it is absent nothing is emitted
+        # (its callers are then checked against their own contracts without it)
+        self.optional = optional
 
 
 def _cl(c, kind, i):
@@ -339,6 +342,9 @@ class Unit:
                 last = None
                 break
             if last is not None:
+                if fn.optional:
+                    self.rewrite_log.append(dict(rule='R-optional', at=f"{file}", what=f"optional helper {fn.name} of `{implname}` is not present; nothing emitted for it"))
+                    continue
                 raise last
         self.emit('}\n', ('src', file, rf.line_of(c)))
 
